@@ -10,9 +10,12 @@ import (
 // Effects: heap kinds read, written and allocated by a piece of code
 // (syntactic, transitive over callees whose source is loaded).
 type Effects struct {
-	R, W, A  map[string]*Kind
-	Unknown  []string // calls whose effects are unknown
-	MapRange bool
+	R, W, A      map[string]*Kind
+	Unknown      []string // calls whose effects are unknown
+	MapRange     bool
+	All          bool             // a callee with a havoc contract: everything may change
+	Preserved    []PreservedField // fields preserved by every havoc callee seen
+	preservedSet bool
 }
 
 func newEffects() *Effects {
@@ -366,6 +369,30 @@ func (vc *VC) effectsOfFunc(eff *Effects, fn *types.Func, recvT types.Type, info
 		}
 		eff.Unknown = append(eff.Unknown, full)
 		return
+	}
+	if p.Contracts != nil {
+		if ct := p.Contracts.Funcs[contractKeyOf(origin)]; ct != nil && ct.Trusted {
+			return // trusted contract: effects are what the contract says (assigns), the body is not analysed
+		}
+		if ct := p.Contracts.Funcs[contractKeyOf(origin)]; ct != nil && ct.Havoc {
+			eff.All = true
+			// intersection of the preserved sets of all havoc callees
+			mine := preservedFields(vc, p, ct)
+			if !eff.preservedSet {
+				eff.Preserved, eff.preservedSet = mine, true
+			} else {
+				var both []PreservedField
+				for _, a := range eff.Preserved {
+					for _, b := range mine {
+						if types.Identical(a.T, b.T) && a.Field == b.Field {
+							both = append(both, a)
+						}
+					}
+				}
+				eff.Preserved = both
+			}
+			return
+		}
 	}
 	if visiting[origin] {
 		return
